@@ -16,6 +16,10 @@ const (
 	Plain Mode = iota
 	AsRequest
 	AsResponse
+	// AsRequestNoReadOnlyCheck / AsResponseNoWriteOnlyCheck: the presence rule is switched off (ExcludeReadOnlyValidations /
+	// ExcludeWriteOnlyValidations) but a required read-only (write-only) property still need not be present.
+	AsRequestNoReadOnlyCheck
+	AsResponseNoWriteOnlyCheck
 )
 
 // Verdict of the reference evaluator.
@@ -259,7 +263,7 @@ func eval(s map[string]any, v any, mode Mode, kin bool) bool {
 				if ps, ok := props[name].(map[string]any); ok {
 					ro, _ := ps["readOnly"].(bool)
 					wo, _ := ps["writeOnly"].(bool)
-					if (mode == AsRequest && ro) || (mode == AsResponse && wo) {
+					if ((mode == AsRequest || mode == AsRequestNoReadOnlyCheck) && ro) || ((mode == AsResponse || mode == AsResponseNoWriteOnlyCheck) && wo) {
 						continue
 					}
 				}
